@@ -573,7 +573,12 @@ def run_check(pid, tier="quick", base_seed=0, n=None, workers=None, wall_cap=Non
             harness_errors.append(("determinism", f"NONDETERMINISM: digests differ between pool worker and fresh interpreter for idx {det['mismatches']}"))
 
     if timed_out:
-        harness_errors.append(("wall", f"batch exceeded wall cap {wall_cap}s"))
+        # the search is time-boxed: running out of wall clock ends it; it only counts as a failure of the harness when
+        # hardly anything was explored (something is stuck, or the machine is far too loaded to say anything)
+        if agg["evaluations"] * 4 >= n:
+            say(f"[{pid}] wall cap {wall_cap}s reached: explored {agg['evaluations']} of {n} scenarios")
+        else:
+            harness_errors.append(("wall", f"batch exceeded wall cap {wall_cap}s after only {agg['evaluations']} of {n} scenarios"))
     if agg["evaluations"] and agg["discards"] * 2 > agg["evaluations"]:
         harness_errors.append(("discards", f"{agg['discards']} of {agg['evaluations']} scenarios discarded: inconclusive"))
     for probe, c in sorted(agg["probes"].items()):
